@@ -284,6 +284,23 @@ def post_count(self, column_name, value, OLD, result):
 
 
 @_guard
+def post_segmentation(self, segmentation_tuple, OLD, result):
+    _c('check_segmentation')
+    pre = OLD.pre
+    _unchanged('check_segmentation', pre, self)
+    col = sh.column(pre['data'], segmentation_tuple.variable.name)
+    for value, name in segmentation_tuple.mapping.items():
+        want = sum(1 for v in col if v == value)
+        got = result.get(name) if hasattr(result, 'get') else None
+        if got is None or int(got) != want or want == 0:
+            _v('segmentation-counts-differ', f'segment {name!r} (value {value!r}) reported with {got} observations, the column holds that value {want} times')
+            break
+    covered = sum(int(x) for x in result.values()) if hasattr(result, 'values') else -1
+    if covered != len(col):
+        _v('segmentation-counts-differ', f'segments add up to {covered} observations, the table has {len(col)} rows')
+
+
+@_guard
 def post_panel(self, column_name, OLD, result):
     _c('panel')
     pre = OLD.pre['data']
@@ -334,6 +351,7 @@ def install():
     wrap('extract_rows', post_extract)
     wrap('generate_flat_panel_dataframe', post_flat)
     wrap('count', post_count)
+    wrap('check_segmentation', post_segmentation)
     wrap('panel', post_panel)
     _INSTALLED = True
 
